@@ -135,7 +135,9 @@ def r2(ctx, fs):
             calls = [canon(m, env, subst=False) for m in walk(n['slots']['body']) if m.get('k') == 'CXXMemberCallExpr' and (m.get('callee_name') or '').endswith('::insert')]
             cond = any(m.get('k') in ('IfStmt', 'BreakStmt', 'ContinueStmt') for m in walk(n['slots']['body']))
             srcs = {d['name']: canon(d['init'], env, subst=False) for d in walk(n['slots']['body']) if d.get('k') == 'VarDecl' and isinstance(d.get('init'), dict)}
-            ok = bool(calls) and calls[0][2] == 'incs' and not cond and any(v == ('mcall', 'ratio::smart_type::get_current_incs', st) and ('mcall', 'std::vector<std::vector<std::pair<smt::lit, double>>>::cbegin', k) in calls[0] for k, v in srcs.items())
+            GCI = ('mcall', 'ratio::smart_type::get_current_incs', st)
+            CB = 'std::vector<std::vector<std::pair<smt::lit, double>>>::cbegin'
+            ok = bool(calls) and calls[0][2] == 'incs' and not cond and (('mcall', CB, GCI) in calls[0] or any(v == GCI and ('mcall', CB, k) in calls[0] for k, v in srcs.items()))
     ctx.instance(rid, [f.id, 'all-smart-types'], {'every_smart_type_asked': ok})
     if not ok:
         ctx.finding(rid, f.id, 'all-smart-types', 'solver::get_incs must append get_current_incs() of every smart type, unconditionally', loc=f.loc)
